@@ -34,6 +34,8 @@ class TreeRecorder:
         return {"tensors": [(_obj(nd.tensor) if self.sym else np.asarray(nd.tensor)).copy() for nd in w.node_list], "coeff": w.coeff}
 
     def expm_krylov(self, afun, dt, v, *a, **k):
+        from vk.symx.harness import budget_check
+        budget_check()      # safe point: between two local problems
         n = len(np.asarray(getattr(v, "array", v), dtype=object if self.sym else None).ravel())
         cols = [np.asarray(_obj(afun(unit_vec(n, j, True))) if self.sym else afun(unit_vec(n, j, False))).ravel() for j in range(n)]
         amat = np.array(cols, dtype=object if self.sym else complex).T
@@ -220,29 +222,10 @@ def native_replay(a0c, H, Hn, coeff, tau, two_site, order):
     return go
 
 
-class _TimeUp(BaseException):
-    """wall-clock budget of a case exhausted (BaseException: it must pass through the `except Exception` clauses that turn exceptions of the code under test into
-    totality violations - running out of time is not a property of the code)"""
-
-
 def worker(case, led):
-    """one tree (seed, shape) x one scheme: real and imaginary time.  Polynomial arithmetic on large local spaces is slow: a case that exceeds its wall-clock
-    budget is counted as skipped (its obligations are simply not generated - never a violation, never counted as discharged)"""
-    import signal
-    budget = case[5]
-
-    def _alarm(*a):
-        raise _TimeUp()
-    old = signal.signal(signal.SIGALRM, _alarm)
-    signal.alarm(budget)
-    try:
-        _worker(case, led)
-    except _TimeUp:
-        led.calls = [c for c in led.calls if c[0] != "crash"]
-        led.extra["skipped"] = [list(case[:4])]
-    finally:
-        signal.alarm(0)
-        signal.signal(signal.SIGALRM, old)
+    """one tree (seed, shape) x one scheme: real and imaginary time, under a cooperative wall-clock budget (polynomial arithmetic on large local spaces is slow)"""
+    from vk.symx.harness import run_with_budget
+    run_with_budget(case[5], _worker, case, led, list(case[:4]))
 
 
 def _worker(case, led):
